@@ -104,6 +104,7 @@ func newFsmRig(res *suiteResult, selfTok int, ds *recDS) *fsmRig {
 	if ds == nil {
 		ds = newRecDS()
 	}
+	curTids, canonText = nil, false
 	r := &fsmRig{ds: ds, self: peerOf(selfTok), keyOf: map[datatransfer.ChannelID]datastore.Key{}, res: res}
 	r.env = &fsmEnv{self: r.self}
 	ch, err := channels.New(ds, r.notify, r.env, r.self)
@@ -275,8 +276,14 @@ func coqStages(st *datatransfer.ChannelStages, res *suiteResult) string {
 				name = "ChannelNotFoundError"
 			}
 			var logs []string
+			prevLine := ""
 			for _, l := range s.Logs {
-				logs = append(logs, coqStr(l.Log))
+				line := canonLog(l.Log)
+				if canonText && line == prevLine {
+					continue // distinct error texts collapse to the same canonical line
+				}
+				prevLine = line
+				logs = append(logs, coqStr(line))
 			}
 			items = append(items, fmt.Sprintf("{| st_name := %s; st_logs := %s |}", name, coqList(logs)))
 		}
@@ -284,8 +291,37 @@ func coqStages(st *datatransfer.ChannelStages, res *suiteResult) string {
 	return coqList(items)
 }
 
+// curTids, when set, maps real transfer ids to tokens (node suites); canonText maps every
+// non-empty message to "E" and every formatted log line to its prefix + "E"
+var curTids *tidTable
+var canonText bool
+
+var logPrefixes = []string{"data transfer disconnected: ", "data transfer send error: ", "data transfer receive error: ",
+	"data transfer request cancelled: ", "data transfer erred: "}
+
+func canonMsg(m string) string {
+	if canonText && m != "" {
+		return "E"
+	}
+	return m
+}
+func canonLog(l string) string {
+	if canonText {
+		for _, p := range logPrefixes {
+			if strings.HasPrefix(l, p) {
+				return p + "E"
+			}
+		}
+	}
+	return l
+}
+
 func coqChid(c datatransfer.ChannelID) string {
-	return fmt.Sprintf("(%s, %s, %s)", coqN(uint64(tokOfPeer(c.Initiator))), coqN(uint64(tokOfPeer(c.Responder))), coqN(uint64(c.ID)))
+	id := uint64(c.ID)
+	if curTids != nil {
+		id = curTids.tok(id)
+	}
+	return fmt.Sprintf("(%s, %s, %s)", coqN(uint64(tokOfPeer(c.Initiator))), coqN(uint64(tokOfPeer(c.Responder))), coqN(id))
 }
 
 func coqChanRaw(st *channels.VerifChannelState, res *suiteResult) string {
@@ -344,7 +380,7 @@ func coqView(cs datatransfer.ChannelState, res *suiteResult) (out string) {
 			res.fail(monitorFailure{Property: "C19", Signature: "last-result-not-empty", What: "LastVoucherResult on an empty log is not the empty value"})
 		}
 	}
-	if res != nil {
+	if res != nil && cs.Sender() != cs.Recipient() {
 		chid := cs.ChannelID()
 		if cs.IsPull() != (chid.Initiator == cs.Recipient()) {
 			res.fail(monitorFailure{Property: "C19", Signature: "view:pull-vs-initiator", What: "IsPull disagrees with initiator == recipient"})
@@ -381,7 +417,7 @@ func coqView(cs datatransfer.ChannelState, res *suiteResult) (out string) {
 		coqN(uint64(tokOfCid(cs.BaseCID()))), coqN(uint64(tokOfNode(cs.Selector()))), coqN(cs.TotalSize()),
 		statusName(cs.Status()), coqN(cs.Queued()), coqN(cs.Sent()), coqN(cs.Received()),
 		coqZ(cs.QueuedCidsTotal()), coqZ(cs.SentCidsTotal()), coqZ(cs.ReceivedCidsTotal()),
-		coqStr(cs.Message()), coqTyped(cs.Voucher()), coqList(vs), coqList(rs),
+		coqStr(canonMsg(cs.Message())), coqTyped(cs.Voucher()), coqList(vs), coqList(rs),
 		coqN(cs.DataLimit()), coqBool(cs.RequiresFinalization()),
 		coqBool(cs.InitiatorPaused()), coqBool(cs.ResponderPaused()), coqBool(cs.BothPaused()), coqBool(cs.SelfPaused()),
 		coqStages(cs.Stages(), res))
